@@ -661,7 +661,9 @@ func MaxLengthPath(cur *Node, prev *Node) ([]*Edge, float64, error) {
 			if err != nil {
 				return nil, -1, err
 			}
-			if l+e.Length() > curlength {
+			// potentialedges == nil: the first candidate is taken even if it does not lengthen
+			// the path, so that a path always ends at a tip (zero-length branches included)
+			if l+e.Length() > curlength || potentialedges == nil {
 				curlength = l + e.Length()
 				potentialedges = append(edges, e)
 			}
